@@ -6,6 +6,7 @@ from ..env import gfapy, GfapyError
 from ..runner import Part, Violation
 
 ID = "C02"
+ATHERIS = ['gfa1', 'gfa2']  # parts also driven by libFuzzer in the thorough tier (vf/runner.py: all_parts)
 RULE = ("model-based histories (<= 25 steps after an optional initial document) of add_line (string or "
         "Line instance; forward references, self-links, hairpins, parallel edges, nested groups, groups "
         "defined in several lines), rm by name / by instance, disconnect, remove-and-add-again of the same "
